@@ -6,6 +6,20 @@ use crate::project;
 use crate::report::guard;
 use ctap_types::ctap2;
 
+/// CPU seconds (user + system) consumed by this process so far, from /proc (the shard processes
+/// are single-threaded, so this is the monitor thread's CPU time).
+pub fn cpu_seconds() -> f64 {
+    let Ok(s) = std::fs::read_to_string("/proc/self/stat") else { return 0.0 };
+    // fields after the parenthesised command name: state is field 3, utime 14, stime 15
+    let Some(rest) = s.rsplit(')').next() else { return 0.0 };
+    let f: Vec<&str> = rest.split_whitespace().collect();
+    if f.len() < 13 {
+        return 0.0;
+    }
+    let ticks: f64 = f[11].parse::<f64>().unwrap_or(0.0) + f[12].parse::<f64>().unwrap_or(0.0);
+    ticks / 100.0
+}
+
 pub fn cfg_name() -> String {
     let mut s = format!(
         "f{}{}{}",
